@@ -186,11 +186,13 @@ def ts_field_reads(f):
     """(point, field) of reads of KeyValueStoreState.<u64 field> whose value flows into the `timestamp`
     argument of MemTable::load / range_scan or VersionRef::load / range_scan."""
     out = []
-    consumers = P.call_points(f, r"lsmtk::kvs::memtable::MemTable::(load|range_scan)$|lsmtk::tree::VersionRef::(load|range_scan)$")
+    consumers = P.call_points(f, r"lsmtk::kvs::memtable::MemTable::load$|lsmtk::tree::VersionRef::load$|sst::pruning_cursor::PruningCursor::new$")
     fields = set()
     for c in consumers:
         t = P.term_at(f, c)
-        idx = 2 if (callee_skey(t) or "").endswith("::load") else 3
+        idx = 2 if (callee_skey(t) or "").endswith("::load") else 1
+        if idx >= len(t["args"]):
+            continue
         for s in P.origins(f, t["args"][idx]):
             if s["k"] == "field" and re.search(ST, s["owner"]):
                 fields.add(s["f"])
